@@ -113,8 +113,9 @@ type Provider struct {
 	ipSinkSource   chan gostatsd.Source
 	infoSinkSource chan gostatsd.InstanceInfo
 
-	rw    sync.RWMutex // Protects cache
-	cache map[gostatsd.Source]*gostatsd.Instance
+	rw       sync.RWMutex // Protects cache and cacheGen
+	cache    map[gostatsd.Source]*gostatsd.Instance
+	cacheGen uint64 // incremented by every invalidation
 }
 
 func (p *Provider) IpSink() chan<- gostatsd.Source {
@@ -169,6 +170,7 @@ func (p *Provider) Run(ctx context.Context) {
 func (p *Provider) instanceFromCache(ip gostatsd.Source) *gostatsd.Instance {
 	p.rw.RLock()
 	instance := p.cache[ip]
+	gen := p.cacheGen
 	p.rw.RUnlock()
 	if instance != nil {
 		// Instance found
@@ -181,7 +183,11 @@ func (p *Provider) instanceFromCache(ip gostatsd.Source) *gostatsd.Instance {
 	// Holding the lock around the whole block would prevent concurrent calculations but also ALL lookups.
 	// This is unacceptable.
 	p.rw.Lock()
-	p.cache[ip] = instance
+	if p.cacheGen == gen {
+		// Nothing was invalidated since the informer was read, so the result is still current.
+		// Otherwise it may describe a pod version that has just been updated or deleted: do not memoise it.
+		p.cache[ip] = instance
+	}
 	p.rw.Unlock()
 	return instance
 }
@@ -466,5 +472,6 @@ func (e cacheInvalidationHandler) maybeInvalidateCacheForPod(pod *core_v1.Pod) {
 	}
 	e.p.rw.Lock()
 	delete(e.p.cache, gostatsd.Source(pod.Status.PodIP))
+	e.p.cacheGen++
 	e.p.rw.Unlock()
 }
